@@ -35,6 +35,33 @@ def run(chk):
     def search(name):
         return troute.lean_search(chk, "ImathVerif.Props.C04", name, IMPORTS, ["ImathVerif"], binary=bins["sym_c04"])
     chk.check_theorems("ImathVerif.Props.C04", search=search)
+
+    def search_show(name):
+        # executable form of the stream-output statement: print a value with distinct components through the
+        # real operator<< and tokenise on whitespace / parentheses: one token per component, in order
+        import re
+        ty, _, st = name.partition("_")
+        n = {"V2": 2, "V3": 3, "V4": 4, "C3": 3, "C4": 4, "Shear6": 6, "Quat": 4, "M22": 4, "M33": 9, "M44": 16}.get(ty)
+        if not n:
+            return None
+        vals = [str(k + 1) for k in range(n)]
+        rc, out = lib.sh([bins["sym_c04"], "real", "%s.%s" % (ty, st)] + vals)
+        m = re.search(r"text=(.*)", out)
+        if not m:
+            return None
+        text = m.group(1).replace("\\n", "\n")
+        toks = [t for t in re.split(r"[\s()]+", text) if t]
+        ok = len(toks) == n and all(abs(float(t) - (k + 1)) < 1e-9 for k, t in enumerate(toks))
+        if ok:
+            return None
+        return {"key": "theorem:" + name, "value_components": vals, "printed_by_real_operator<<": m.group(1),
+                "tokens": toks, "expected_token_count": n}
+    chk.check_theorems("ImathVerif.Props.C04Show", search=search_show)
+
+    def search_alias(name):
+        return troute.lean_search(chk, "ImathVerif.Props.C04Alias", name, ["ImathVerif.Basic.Maps", "ImathVerif.Gen.C04Alias"],
+                                  ["ImathVerif"], binary=bins["sym_c04"])
+    chk.check_theorems("ImathVerif.Props.C04Alias", search=search_alias)
     per = {}
     for d in index:
         per[d["name"].split(".")[0]] = per.get(d["name"].split(".")[0], 0) + 1
@@ -43,3 +70,5 @@ def run(chk):
         chk.sample({"entry": d["name"], "paths": d.get("paths"), "classes": d.get("cls")})
     if chk.thorough:
         chk.leanchecker("ImathVerif.Props.C04")
+        chk.leanchecker("ImathVerif.Props.C04Show")
+        chk.leanchecker("ImathVerif.Props.C04Alias")
